@@ -30,6 +30,19 @@ SEQ = {
                      "dropped and functions executed"),
     "C06": dict(families=["struct"], needs=["new", "we", "op:set"],
                 rule="struct family; non-trivial = structs created and a write"),
+    "C07": dict(families=["churn", "struct", "intern"], needs=["new", "int", "op:set"],
+                rule="churn family (conditional struct creation, interned revisions=1..3 with a coarse hash so that slots "
+                     "are shared, long write-heavy histories); non-trivial = structs and interned values created and writes"),
+    "C08": dict(families=["intern", "churn"], needs=["int", "op:set"],
+                rule="interning from several queries over a small value domain across revisions; non-trivial = interning "
+                     "and a write in one history"),
+    "C09": dict(families=["churn", "intern"], needs=["int", "irec", "op:set"],
+                rule="interned types with revisions=1,2,3,MAX; non-trivial = interning, an active-revision record and a write"),
+    "C10": dict(families=["spec"], needs=["spec", "new", "op:set"],
+                rule="spec family: creators that specify / call the specifiable function in both orders; "
+                     "non-trivial = a specify, a struct creation and a write"),
+    "C11": dict(families=["accum"], needs=["op:accum", "accv", "op:set"],
+                rule="accum family; non-trivial = accumulated() requested, values pushed and a write"),
     "C23": dict(families=["core", "lru", "struct", "intern", "mixed"], needs=["drop", "retained"],
                 rule="value lifetime discipline over all sequential families; non-trivial = values dropped and "
                      "references retained across a read phase"),
